@@ -67,12 +67,40 @@ func fixed() []Snip {
 		snippets(tpl("var _ @x", named("x", X), named("y", probeS("Y", true))), tpl("var _ @y", named("x", probeS("X", true)), named("y", block("Y")))),
 		tpl("[@x]", named("x", tpl("<@a1>", named("a1", X), named("x", probeS("inner", true)))), named("a1", probeS("outer", false))),
 		tpl("@x", named("x", X), named("y", tpl("@zz")), named("ab", spf("%v"))),
+		// ---- the bindings travel in ONE snippet.Args map which the caller goes on using after T() returned ----
+		// the loop of a generator: one map, one template per field, all rendered afterwards
+		shareArgs(tplArgs("v.@Field = in.@Field\n", named("Field", block("Name")), named("v", X)),
+			tplArgs("v.@Field = in.@Field\n", named("Field", block("Age")), named("v", X)),
+			tplArgs("v.@Field = in.@Field\n", named("Field", block("Tags")), named("v", X))),
+		shareArgs(tplArgs("@x'@y'", named("x", X), named("y", block("Y"))), tplArgs("@x'", named("x", block("Z"))), tplArgs("no placeholder")),
+		shareArgs(tplArgs("[@x]", named("x", X)), block("-"), tplArgs("[@y]", named("y", block("Y"))), tpl("@x", named("x", block("own")))),
+		// one template, then the map is written to: entry reassigned / deleted / added / emptied
+		mutated(tplArgs("a@x'b", named("x", X)), set("x", block("LATER"))),
+		mutated(tplArgs("a@x'b", named("x", X)), del("x")),
+		mutated(tplArgs("a@x'b@y", named("x", X)), set("y", block("LATER"))), // @y was not bound when T was called: must panic
+		mutated(tplArgs("a@x'b", named("x", X), named("y", block("Y"))), del("y"), set("ab", probeS("P", true)), set("x", probeS("Q", false))),
+		mutated(tplArgs("@x@y", named("x", nilS()), named("y", e)), set("x", X), set("y", X)),
+		mutated(tplArgs("@x", named("x", X)), set("x", Snip{K: "nil"})), mutated(tplArgs("@x", named("x", X)), Mut{N: "x"}),
+		mutated(tplArgs("@x"), set("x", X)), mutated(tplArgs(""), set("x", probeS("P", true))),
+		tplArgs("no binding at all: nil map"), tplArgs("@x"), tplArgs("@x @y", named("x", X), named("y", X), named("x", block("last wins"))),
+		withMode("args+", mutated(tplArgs("@x @y", named("x", X), named("y", block("Y"))), del("x"), set("y", block("LATER")))),
+		// the mutated template as an argument of another template / of Sprintf / behind Fragments
+		tpl("<@a1>", named("a1", mutated(tplArgs("@x", named("x", X)), set("x", block("LATER"))))),
+		spf("%v|%T", sarg(mutated(tplArgs("@x", named("x", X)), del("x"))), sarg(mutated(tplArgs("@y'", named("y", X)), set("y", nilS())))),
+		fragments(mutated(tplArgs("@x", named("x", tpl("@y", named("y", X)))), set("x", tpl("@y")))),
 		// the known finding and the malformed stream
 		tpl(bomS + "a"), tpl("\n\n"+bomS+"a@x", named("x", X)), tpl("a" + bomS + "b"), tpl(bomS + bomS + "a"), spf(bomS+"a%v", varg(Val{T: "int", I: 1})),
 		tpl("a\xffb\xe1\x80@x", named("x", X)), tpl("\xef\xbb@x", named("x", X)), spf("\xc3%v\xed\xa0\x80", varg(Val{T: "int", I: 1})),
 		tpl("\xf0\x9f\x98\x80@x\xf4\x90\x80\x80", named("x", X)),
 	}
 }
+
+func tplArgs(f string, args ...Arg) Snip { x := tpl(f, args...); x.Mode = "args"; return x }
+func withMode(m string, s Snip) Snip     { s.Mode = m; return s }
+func mutated(s Snip, m ...Mut) Snip      { s.Mut = m; return s }
+func set(n string, s Snip) Mut           { return Mut{N: n, S: &s} }
+func del(n string) Mut                   { return Mut{N: n, Del: true} }
+func shareArgs(l ...Snip) Snip           { x := snippets(l...); x.Share = true; return x }
 
 type gen struct {
 	r    *core.RNG
@@ -138,6 +166,9 @@ func (g *gen) argSnip(depth int) Snip {
 	case k < 86:
 		return comment(core.Pick(r, []string{"c", "a\nb", ""}))
 	case k < 90 && depth < 3:
+		if depth < 2 && r.Chance(30) {
+			return g.sharedList(depth)
+		}
 		n := r.Intn(4)
 		var l []Snip
 		for i := 0; i < n; i++ {
@@ -243,7 +274,84 @@ func (g *gen) template(depth int) Snip {
 		dup.S = &s
 		args = append(args, dup)
 	}
-	return tpl(f, args...)
+	t := tpl(f, args...)
+	if r.Chance(25) {
+		g.viaArgsMap(&t, depth)
+	}
+	return t
+}
+
+// the bindings are handed to T in one snippet.Args map, and (mostly) the caller writes to that map afterwards: rebinds,
+// deletes or adds names the format mentions, or others
+func (g *gen) viaArgsMap(t *Snip, depth int) {
+	r := g.r
+	t.Mode = "args"
+	if r.Chance(10) {
+		t.Mode = "args+"
+	}
+	if r.Chance(25) {
+		return
+	}
+	var pool []string // names bound at construction, names the format may mention, the name pool
+	for i := range t.Args {
+		pool = append(pool, t.Args[i].N, t.Args[i].N)
+	}
+	pool = append(pool, names...)
+	n := 1 + r.Intn(3)
+	if r.Chance(10) { // the caller empties the map for its next use
+		for i := range t.Args {
+			t.Mut = append(t.Mut, del(t.Args[i].N))
+		}
+		n = r.Intn(2)
+	}
+	for i := 0; i < n; i++ {
+		nm := core.Pick(r, pool)
+		switch k := r.Intn(100); {
+		case k < 30:
+			t.Mut = append(t.Mut, del(nm))
+		case k < 60:
+			t.Mut = append(t.Mut, set(nm, g.probe()))
+		case k < 65:
+			t.Mut = append(t.Mut, Mut{N: nm})
+		default:
+			t.Mut = append(t.Mut, set(nm, g.argSnip(depth+2)))
+		}
+	}
+}
+
+// a list of templates built one after the other from ONE Args map (a generator's loop), rendered afterwards
+func (g *gen) sharedList(depth int) Snip {
+	r := g.r
+	n := 2 + r.Intn(3)
+	var l []Snip
+	var f0 *Snip
+	for i := 0; i < n; i++ {
+		if r.Chance(15) {
+			l = append(l, g.argSnip(depth+1))
+			continue
+		}
+		t := g.template(depth + 1)
+		if f0 != nil && r.Chance(50) { // the same text again with other bindings of the same names
+			t = *f0
+			t.Args = append([]Arg{}, f0.Args...)
+			for j := range t.Args {
+				if r.Chance(70) {
+					x := g.argSnip(depth + 2)
+					t.Args[j].S = &x
+				}
+			}
+		}
+		t.Mode, t.Mut = "args", nil
+		if r.Chance(10) {
+			t.Mode = "args+"
+		}
+		if f0 == nil {
+			c := t
+			f0 = &c
+		}
+		l = append(l, t)
+	}
+	return shareArgs(l...)
 }
 
 func (g *gen) probe() Snip {
@@ -344,6 +452,9 @@ func (g *gen) root() Snip {
 		}
 		return directive(core.Pick(r, []string{"embed", "generate", "build", "", "x y"}), as...)
 	case k < 94:
+		if r.Chance(50) {
+			return g.sharedList(0)
+		}
 		n := r.Intn(5)
 		var l []Snip
 		for i := 0; i < n; i++ {
@@ -679,10 +790,38 @@ func shrinkSnip(s Snip) []Snip {
 		c.Strs = append(append([]string{}, s.Strs[:i]...), s.Strs[i+1:]...)
 		out = append(out, c)
 	}
+	// later writes to the Args map: drop one, simplify what is stored; hand the bindings over one by one; own map per template
+	for i := range s.Mut {
+		c := s
+		c.Mut = append(append([]Mut{}, s.Mut[:i]...), s.Mut[i+1:]...)
+		out = append(out, c)
+		if s.Mut[i].S != nil && !(s.Mut[i].S.K == "block" && len(s.Mut[i].S.S) <= 1) {
+			c := s
+			c.Mut = append([]Mut{}, s.Mut...)
+			c.Mut[i] = set(s.Mut[i].N, block("L"))
+			out = append(out, c)
+		}
+	}
+	if s.Mode != "" && len(s.Mut) == 0 {
+		c := s
+		c.Mode = ""
+		out = append(out, c)
+	}
+	if s.Mode == "args+" {
+		c := s
+		c.Mode = "args"
+		out = append(out, c)
+	}
+	if s.Share {
+		c := s
+		c.Share = false
+		out = append(out, c)
+	}
 	// shorten the text
 	for _, t := range dropRunes(string(s.S)) {
 		c := mk(s.K, t)
 		c.Args, c.Strs, c.L, c.V, c.P, c.N, c.Pan, c.Self = s.Args, s.Strs, s.L, s.V, s.P, s.N, s.Pan, s.Self
+		c.Mode, c.Mut, c.Share = s.Mode, s.Mut, s.Share
 		out = append(out, c)
 	}
 	// simplify a child: to an empty block, to a literal block, or recursively
@@ -722,7 +861,16 @@ func shrinkSnip(s Snip) []Snip {
 }
 
 func size(s *Snip) int {
-	n := 1 + len(s.S) + len(s.Strs)
+	n := 1 + len(s.S) + len(s.Strs) + len(s.Mode)
+	if s.Share {
+		n++
+	}
+	for i := range s.Mut {
+		n += 2 + len(s.Mut[i].N)
+		if s.Mut[i].S != nil {
+			n += size(s.Mut[i].S)
+		}
+	}
 	for _, a := range s.Strs {
 		n += len(a)
 	}
